@@ -78,3 +78,13 @@ package db
 // schema clauses the one-row-per-height assumption rests on (C02, C13; A5), pinned
 //@ filepin C02,C13 migrations/0001.sql "signed_certificate TEXT, PRIMARY KEY (height) );"
 //@ filepin C02,C13 migrations/0001.sql "signed_certificate TEXT, PRIMARY KEY (height, retry_count) );"
+
+// the query behind the status poll (C13, C02): built from constant pieces around one placeholder per status given
+// (string building is outside the subset: the pieces are pinned, the statement's meaning is assumed, A5)
+//@ func (a *AggSenderSQLStorage) GetCertificateHeadersByStatus
+//@   props C02 C13
+//@   trusted
+//@   modifies nothing
+//@   consttext " WHERE status IN ("
+//@   consttext " ORDER BY height ASC"
+//@   consttext "$%d"
